@@ -501,3 +501,24 @@ MUTANTS += [
          old="            else:\n                logger.debug(f'Yielding empty data for {name}')\n                yield dataclass.empty()",
          new="            else:\n                logger.debug(f'Yielding empty data for {name}')\n                if next_name is None:\n                    return\n                yield dataclass.empty()"),
 ]
+
+MS = "bionumpy/streams/multistream.py"
+
+MUTANTS += [
+    # ---- C12 ----------------------------------------------------------------------------
+    dict(prop="C12", name="order-checks-only-after-yield (the original defect)", edits=[
+        (GC, "            if i == len(real_order) - 1 and next_name is not None:", "            if False:"),
+        (GC, "                if next_name is not None and (next_name in seen or next_name == name):", "                if False:")]),
+    dict(prop="C12", name="unknown-names-skipped", file=GC,
+         old="            if name not in self._included:\n                raise GenomeError(f'{name} not included in genome: {set(self._chrom_size_dict.keys())}')",
+         new="            if name not in self._included:\n                continue"),
+    dict(prop="C12", name="synched-stream-no-lookahead", file=MS,
+         old="                if cur_contig_idx == len(self._contig_order) - 1 and upcoming is not None:", new="                if False:"),
+    dict(prop="C12", name="synched-stream-unknown-skipped", file=MS,
+         old="            if name not in self._contig_order:\n                raise StreamError(f\"Stream had value not present in contig order: {name} ({self._contig_order})\")",
+         new="            if name not in self._contig_order:\n                continue"),
+    dict(prop="C12", name="ignored-groups-counted-as-data", file=GC,
+         old="            if name in self._ignored:\n                continue", new="            if name in self._ignored and len(self._ignored) > 1:\n                continue"),
+    dict(prop="C12", name="empty-table-for-wrong-contig", file=GC,
+         old="            else:\n                group = dataclass.empty()", new="            else:\n                group = dataclass.empty() if next_name is None or i > 0 else next_group"),
+]
